@@ -292,10 +292,13 @@ void anneal_puso(  // updates states and values in place
     }
 
     long *index = (long*)malloc(num_terms * sizeof(long));
-    index[0] = 0;
     for(long term=0; term<num_terms; term++) {
+        // index is empty when there are no terms, so index[0] can only be
+        // written inside of the loop.
         if(term) {
             index[term] = index[term-1] + num_couplings[term-1];
+        } else {
+            index[term] = 0;
         }
         for(i=0; i<num_couplings[term]; i++) {
             j = terms[index[term] + i];  // spin j is involved in term `term`.
